@@ -104,13 +104,15 @@ impl<C: Chi> Subst for Mu<C> {
     ) -> Mu<C> {
         let mut prod_subst_reduced: Vec<(Identifier, Term<Prd>)> = Vec::new();
         let mut cons_subst_reduced: Vec<(Identifier, Term<Cns>)> = Vec::new();
+        // a mu-abstraction binds a covariable and a mu-tilde-abstraction binds a variable, so it only
+        // shadows the substitution for variables of the kind it binds
         for subst in prod_subst {
-            if subst.0 != self.variable {
+            if self.prdcns.is_prd() || subst.0 != self.variable {
                 prod_subst_reduced.push(subst.clone());
             }
         }
         for subst in cons_subst {
-            if subst.0 != self.variable {
+            if !self.prdcns.is_prd() || subst.0 != self.variable {
                 cons_subst_reduced.push(subst.clone());
             }
         }
